@@ -1,8 +1,12 @@
 (* C07 — correspondence: the harness decodes wire bytes with the real Decoder into
    each of the 13 destination kinds and records (ok, stored value); the model is
    evaluated on the same bytes.  Floats are compared as bit patterns with NaNs
-   canonicalised; errors only as "error". *)
-From Coq Require Import List ZArith Bool.
+   canonicalised; errors only as "error" for the binary formats.
+   json ([mkjson]): the bytes of one number token, what strconv.ParseFloat answers for
+   them (the oracle argument of the model, None = error), and per kind (ok, stored value)
+   or (false, error class: 3 = an overflow error, 8 = any other error). *)
+From Coq Require Import List NArith ZArith Bool.
+From Verif Require C09.Spec.
 From Verif Require Import Base.Word Base.Outcome Base.FBits C07.Model C07.Json.
 Import ListNotations.
 Local Open Scope Z_scope.
@@ -10,11 +14,17 @@ Local Open Scope Z_scope.
 Definition kinds : list kind :=
   [KInt8; KInt16; KInt32; KInt64; KInt; KUint8; KUint16; KUint32; KUint64; KUint; KUintptr; KFloat32; KFloat64].
 
-Record case := mkcase {
-  cid : N;
-  cfmt : Z;                     (* 0 cbor, 1 msgpack, 2 binc, 3 simple, 4 json *)
-  cbytes : list Z;
-  couts : list (bool * Z) }.    (* per kind: decoded without error?, stored value *)
+Inductive case :=
+| mkcase (id : N)
+         (fmt : Z)                     (* 0 cbor, 1 msgpack, 2 binc, 3 simple *)
+         (bytes : list Z)
+         (outs : list (bool * Z))      (* per kind: decoded without error?, stored value *)
+| mkjson (id : N)
+         (lit : list N)                (* the token *)
+         (sc64 sc32 : option Z)        (* strconv.ParseFloat(lit, 64 / 32): bits, None = error *)
+         (outs : list (bool * Z)).     (* per kind: (true, stored value) or (false, error class) *)
+
+Definition cid (c : case) : N := match c with mkcase id _ _ _ => id | mkjson id _ _ _ _ => id end.
 
 Definition canon (k : kind) (v : Z) : Z :=
   match k with
@@ -28,24 +38,38 @@ Definition run (f : Z) (k : kind) (bs : list Z) : res Z :=
   else if f =? 1 then decode msgpack k bs
   else if f =? 2 then decode binc k bs
   else if f =? 3 then decode simple k bs
-  else json_decode k bs.
+  else Err EUnsupported.
 
-Definition check_one (f : Z) (bs : list Z) (k : kind) (o : bool * Z) : bool :=
-  match run f k bs with
+Definition check_one (r : res Z) (k : kind) (o : bool * Z) : bool :=
+  match r with
   | Ok v => fst o && (canon k v =? canon k (snd o))
   | Err EUnsupported => false
   | Err _ => negb (fst o)
   | OutOfFuel => false
   end.
 
-Fixpoint check_all (f : Z) (bs : list Z) (ks : list kind) (os : list (bool * Z)) : bool :=
+(* json: the error class is compared too *)
+Definition check_one_json (r : res Z) (k : kind) (o : bool * Z) : bool :=
+  match r with
+  | Ok v => fst o && (canon k v =? canon k (snd o))
+  | Err e => negb (fst o) && (Z.of_N (eclass_code e) =? snd o)
+  | OutOfFuel => false
+  end.
+
+Fixpoint check_all (chk : kind -> bool * Z -> bool) (ks : list kind) (os : list (bool * Z)) : bool :=
   match ks, os with
   | [], [] => true
-  | k :: ks', o :: os' => check_one f bs k o && check_all f bs ks' os'
+  | k :: ks', o :: os' => chk k o && check_all chk ks' os'
   | _, _ => false
   end.
 
-Definition check_case (c : case) : bool := check_all (cfmt c) (cbytes c) kinds (couts c).
+Definition check_case (c : case) : bool :=
+  match c with
+  | mkcase _ f bs outs => check_all (fun k o => check_one (run f k bs) k o) kinds outs
+  | mkjson _ lit sc64 sc32 outs =>
+    let orc := fun (f : C09.Spec.bfmt) (_ : list N) => if (C09.Spec.prec f =? 53) then sc64 else sc32 in
+    check_all (fun k o => check_one_json (json_decode orc k lit) k o) kinds outs
+  end.
 
 Definition mismatches (cs : list case) : list N :=
   map cid (filter (fun c => negb (check_case c)) cs).
